@@ -203,8 +203,8 @@ func c07Mutate(rng *rand.Rand, s string) string {
 }
 
 func c07Long() []string {
-	n := verifkit.Pick(20000, 200000) // flat inputs
-	d := 2500                         // nested inputs: printing a tree is quadratic in its depth, keep that far below the watchdog
+	n := 20000 // flat inputs; evaluating a query costs time linear in its size, keep that far below the watchdog
+	d := 2500  // nested inputs: printing a tree is quadratic in its depth, keep that far below the watchdog
 	var graded []string
 	for _, k := range []int{10, 14, 18} {
 		graded = append(graded, strings.Repeat("( ", k)+"a"+strings.Repeat(" )", k), strings.Repeat("-( ", k)+"a"+strings.Repeat(" )", k),
@@ -625,12 +625,14 @@ type c07Child struct {
 	handler  http.Handler
 	cpuLimit time.Duration
 	memLimit uint64
+	size     int // bytes of the input being processed
 }
 
 // run executes one operation under recover and the watchdog and journals it.
 // f returns (outcome, message, status).
 func (c *c07Child) run(i int, op string, f func() (string, string, int)) c07Result {
 	fmt.Fprintf(c.out, "B %d %s\n", i, op)
+	cpuLimit := c.cpuLimit + time.Duration(c.size)*time.Millisecond // 10 s + 1 ms per input byte
 	cpu0, mem0, t0 := c07CPU(), c07Mem(), time.Now()
 	done := make(chan c07Result, 1)
 	go func() {
@@ -654,7 +656,7 @@ func (c *c07Child) run(i int, op string, f func() (string, string, int)) c07Resu
 			verdict := ""
 			if m := c07Mem(); m > mem0 && m-mem0 > c.memLimit {
 				verdict = "oom"
-			} else if c07CPU()-cpu0 > c.cpuLimit {
+			} else if c07CPU()-cpu0 > cpuLimit {
 				verdict = "hang"
 			} else if time.Since(t0) > 20*time.Minute {
 				verdict = "stalled" // no CPU consumed: not a positive observation, the check reports it as inconclusive
@@ -854,6 +856,7 @@ func TestVerif_C07_Child(t *testing.T) {
 		in := &inputs[i]
 		// attribution of a hard crash or hang: the input being processed is on disk first
 		os.WriteFile(c.cur, []byte(fmt.Sprintf("%d %s %s\n", in.I, in.Kind, in.Hex)), 0o644)
+		c.size = len(in.Hex) / 2
 		switch in.Kind {
 		case "query":
 			c.query(in)
